@@ -148,6 +148,19 @@ def constructed(tak, rng, n):
                     board[Y * n + X] = stack(top_kind=K.CAPSTONE, h=rng.choice([1, 2]))
                 elif r < 0.9:
                     board[Y * n + X] = stack(top_kind=K.FLAT)
+    # smash scenarios: a capstone-led stack of the mover, j - 1 passable squares, then a wall (of either colour)
+    # at distance j; the stack is tall enough to drop a piece on every square on the way
+    for _ in range(rng.choice([0, 1, 1, 2])):
+        x, y = rng.randrange(n), rng.randrange(n)
+        dx, dy = rng.choice(((1, 0), (-1, 0), (0, 1), (0, -1)))
+        j = rng.randint(1, n - 1)
+        X, Y = x + j * dx, y + j * dy
+        if not (0 <= X < n and 0 <= Y < n):
+            continue
+        board[y * n + x] = stack(top_color=mover, top_kind=K.CAPSTONE, h=min(n + 2, j + rng.choice([0, 0, 1, 2])))
+        for i in range(1, j):
+            board[(y + i * dy) * n + x + i * dx] = rng.choice([[], [], stack(top_kind=K.FLAT, h=rng.choice([1, 2]))])
+        board[Y * n + X] = stack(top_kind=K.STANDING, h=rng.choice([1, 1, 2, 3]))
     res = [rng.choice([0, 0, 1, 2, 10, 30]) for _ in range(4)]
     return tak.Position(size=n, ply=ply,
                         stones=(tak.StoneCounts(stones=res[0], caps=res[1]), tak.StoneCounts(stones=res[2], caps=res[3])),
